@@ -242,10 +242,10 @@ func (m *ServerModel) Register(key glow.PublicKey, sig [64]byte) bool {
 type AuthResult int
 
 const (
-	AuthRefused AuthResult = iota // nothing changes
-	AuthNew                       // device added
-	AuthDuplicate                 // identical, nothing changes
-	AuthConflict                  // id banned
+	AuthRefused   AuthResult = iota // nothing changes
+	AuthNew                         // device added
+	AuthDuplicate                   // identical, nothing changes
+	AuthConflict                    // id banned
 )
 
 func (r AuthResult) String() string {
